@@ -461,6 +461,8 @@ def rule_P3(ctx, prefix, prog, site, allow_globals=()):
                             isinstance(n.func, ast.Attribute) and isinstance(n.func.value, ast.Name) and \
                             n.func.value.id in f.module.globals_assigned and not _is_local(f, n.func.value.id):
                         bad.append(f"mutates module-level `{n.func.value.id}`")
+            if f is w:
+                rule_arg_mutation(ctx, prefix, f, site.fi.qualname)
             ctx.check(not bad, f"{prefix}.P3", f.site,
                       "worker code has no global statement, no module-state mutation, no nondeterministic call",
                       f"worker (reached from {site.fi.qualname}) is impure: {'; '.join(bad)}",
@@ -494,6 +496,111 @@ def rule_P3(ctx, prefix, prog, site, allow_globals=()):
                               f"(`global` in {f.module.relpath}); the pathos ProcessingPool is cached and its "
                               f"worker processes persist, so a second instance computes with the first instance's "
                               f"values", key=f"pathos:{','.join(stale)}", where=loc(site.fi, site.call))
+
+
+IN_PLACE_METHODS = {"sort", "reverse", "append", "extend", "insert", "pop", "remove", "clear", "update", "fill",
+                    "resize", "put", "setdefault", "popitem", "itemset", "partition", "byteswap", "setflags"}
+# calls that return (or may return) their argument itself rather than a copy
+IDENTITY_CALLS = {"np.asarray", "np.asanyarray", "np.ascontiguousarray", "np.ravel", "np.squeeze", "np.atleast_1d"}
+
+
+def task_aliases(fi):
+    """{local name: text of the task part it aliases}: names bound by a plain assignment (or tuple unpacking of the
+    parameter) to the parameter itself or to a call-free attribute/subscript path rooted at it, or through a call
+    that may return its argument unchanged (np.asarray of an array).  Flow-insensitive, but a name that is also
+    bound to anything else is dropped (no alias claimed for it)."""
+    params = [a.arg for a in fi.node.args.args if a.arg not in ("self", "cls")]
+    alias, other = {}, set()
+
+    def root_path(e):
+        while isinstance(e, ast.Call) and norm(e.func) in IDENTITY_CALLS and len(e.args) >= 1:
+            e = e.args[0]
+        path = e
+        while isinstance(path, (ast.Subscript, ast.Attribute)):
+            if isinstance(path, ast.Subscript) and isinstance(path.slice, ast.Slice):
+                return None         # a slice of a list is a copy; of an array a view: not claimed
+            path = path.value
+        if isinstance(path, ast.Name) and (path.id in params or path.id in alias):
+            if any(isinstance(x, ast.Call) for x in ast.walk(e)):
+                return None
+            base = alias.get(path.id, path.id)
+            return norm(e).replace(path.id, base, 1) if path.id in alias else norm(e)
+        return None
+
+    for _ in range(3):
+        for n in walk_no_nested(fi.node):
+            if isinstance(n, ast.Assign) and len(n.targets) == 1:
+                t = n.targets[0]
+                if isinstance(t, ast.Name):
+                    rp = root_path(n.value)
+                    if rp is not None and t.id not in params:
+                        alias[t.id] = rp
+                    elif t.id in alias and rp is None:
+                        other.add(t.id)
+                elif isinstance(t, (ast.Tuple, ast.List)) and isinstance(n.value, ast.Name) and n.value.id in params:
+                    for i, e in enumerate(t.elts):
+                        if isinstance(e, ast.Name):
+                            alias[e.id] = f"{n.value.id}[{i}]"
+            elif isinstance(n, (ast.For, ast.comprehension)):
+                for x in ast.walk(n.target):
+                    if isinstance(x, ast.Name) and x.id in alias:
+                        other.add(x.id)
+    for p_ in params:
+        alias[p_] = p_
+    return {k: v for k, v in alias.items() if k not in other}
+
+
+def rule_arg_mutation(ctx, prefix, fi, reached_from=""):
+    """a worker / reader function must not change, in place, an object it received through its task: the serial
+    twins and the in-process single-box reads run it on the caller's own objects (the selector kept by a stream, the
+    task table), so an in-place update makes later results depend on the history of earlier calls; under a pool the
+    task is a pickled copy and the same code looks harmless."""
+    alias = task_aliases(fi)
+    container = set()     # aliases with evidence of being containers (subscripted, iterated, len())
+    for n in walk_no_nested(fi.node):
+        if isinstance(n, ast.Subscript) and isinstance(n.value, ast.Name) and n.value.id in alias:
+            container.add(n.value.id)
+        if isinstance(n, ast.Call) and norm(n.func) in ("len", "np.array", "np.asarray", "list", "tuple", "sorted") \
+                and n.args and isinstance(n.args[0], ast.Name) and n.args[0].id in alias:
+            container.add(n.args[0].id)
+        if isinstance(n, (ast.For, ast.comprehension)) and isinstance(n.iter, ast.Name) and n.iter.id in alias:
+            container.add(n.iter.id)
+    params = {a.arg for a in fi.node.args.args}
+    bad = []
+    for n in walk_no_nested(fi.node):
+        if isinstance(n, ast.AugAssign):
+            t = n.target
+            if isinstance(t, ast.Name) and t.id in alias and t.id not in params and t.id in container:
+                bad.append((n, f"`{norm(n)}` updates in place the object `{alias[t.id]}` of the task"))
+            elif isinstance(t, (ast.Subscript, ast.Attribute)):
+                b = t
+                while isinstance(b, (ast.Subscript, ast.Attribute)):
+                    b = b.value
+                if isinstance(b, ast.Name) and b.id in alias:
+                    bad.append((n, f"`{norm(n)}` updates in place part of `{alias[b.id]}` of the task"))
+        elif isinstance(n, (ast.Assign, ast.Delete)):
+            for t in (n.targets if isinstance(n, (ast.Assign, ast.Delete)) else []):
+                for x in ([t] if not isinstance(t, (ast.Tuple, ast.List)) else t.elts):
+                    if isinstance(x, (ast.Subscript, ast.Attribute)):
+                        b = x
+                        while isinstance(b, (ast.Subscript, ast.Attribute)):
+                            b = b.value
+                        if isinstance(b, ast.Name) and b.id in alias and b.id != "self":
+                            bad.append((n, f"`{norm(n)[:60]}` stores into `{alias[b.id]}` of the task"))
+        elif isinstance(n, ast.Call) and isinstance(n.func, ast.Attribute) and n.func.attr in IN_PLACE_METHODS:
+            b = n.func.value
+            direct = isinstance(b, ast.Name)
+            while isinstance(b, (ast.Subscript, ast.Attribute)):
+                b = b.value
+            if isinstance(b, ast.Name) and b.id in alias and b.id != "self" and \
+                    not (n.func.attr in ("pop", "update", "setdefault", "append", "extend") and not direct and False):
+                bad.append((n, f"`{norm(n)[:60]}` changes `{alias[b.id]}` of the task in place"))
+    ctx.check(not bad, f"{prefix}.P3-ARG-MUTATION", fi.site,
+              "the function never updates in place an object received through its task argument",
+              (f"worker{(' (reached from ' + reached_from + ')') if reached_from else ''}: " +
+               "; ".join(w for _, w in bad[:3]) + " — run in-process (serial mode, single-box read) this rewrites the "
+               "caller's own selector/table, so later reads return other data"),
+              key="arg-mutation", where=loc(fi, bad[0][0]) if bad else None)
 
 
 def rule_P3_module_ref(ctx, prefix, prog, modules):
